@@ -29,6 +29,8 @@ type CrashCase struct {
 	Kill  string  `json:"kill"`
 	N     int     `json:"n"`
 	Delay int     `json:"delayMicros"`
+	// OtherMount: the cache root lies on another file system than $TMPDIR
+	OtherMount bool `json:"otherMount,omitempty"`
 }
 
 type wBundle struct {
@@ -71,7 +73,7 @@ func writeSpec(dir string, proc int, ops []wOp, ids map[int]bool) (string, error
 // runCrash executes one crash case; returns (finding key, message, killed, acks).
 func runCrash(c CrashCase) (string, string, bool, int) {
 	getPool()
-	root, cleanup := newRoot()
+	root, cleanup := newRootOn(c.OtherMount)
 	defer cleanup()
 	cache, err := crl.NewFileCache(root)
 	if err != nil {
@@ -220,6 +222,7 @@ func drawSeq(rt *rapid.T, big bool) CrashCase {
 	for i := 0; i < rapid.IntRange(1, 4).Draw(rt, "ops"); i++ {
 		c.Ops = append(c.Ops, Store{URL: rapid.IntRange(0, 2).Draw(rt, "url"), Bundle: pick("bundle")})
 	}
+	c.OtherMount = otherMount != "" && rapid.IntRange(0, 2).Draw(rt, "rootOnOtherMount") == 0
 	return c
 }
 
@@ -235,6 +238,9 @@ func recordCrash(rec *stats.Recorder, c CrashCase, killed bool, acks int) {
 	}
 	if len(c.Pre) > 0 {
 		cl = append(cl, "overwrite-of-existing-entry")
+	}
+	if c.OtherMount {
+		cl = append(cl, "cache-root-on-another-file-system-than-tmpdir")
 	}
 	rec.Case(cl, killed, stats.Fingerprint(fmt.Sprintf("%+v", c)), func() any { return c })
 }
